@@ -1,4 +1,4 @@
-From Hannibal Require Import Model.Sys Inv.Refs.
+From Hannibal Require Import Model.Sys Inv.Refs Chk.C05.
 From Hannibal Require Props.C05.
 Check Props.C05.C05_strong_counted_weak_not :
   (forall k, is_weak k = false -> fst (holds k) = 1) /\ (forall k, is_weak k = true -> holds k = (0, 0))
@@ -28,3 +28,13 @@ Check Props.C05.C05_no_exit_while_strongly_held :
   a_phase x = PhIdle -> forall h k, handles s h = Some (a, k) -> is_weak k = true.
 Check Props.C05.C05_registry_keeps_alive :
   forall tr s ty a x, run init tr = Acc s -> reg s ty = Some a -> actors s a = Some x -> 1 <= a_tx x.
+Check Props.C05.C05_no_resurrection :
+  forall tr1 tr2 s1 b1 s2 b2 a x1,
+  prov_run init [] tr1 = Some (s1, b1) -> actors s1 a = Some x1 -> In a b1 -> a_tx x1 = 0 ->
+  prov_run s1 b1 tr2 = Some (s2, b2) -> exists x2, actors s2 a = Some x2 /\ a_tx x2 = 0.
+Check Props.C05.C05_upgrade_fails_for_ever :
+  forall tr1 tr2 s1 b1 s2 b2 a x1 h k ok s3,
+  prov_run init [] tr1 = Some (s1, b1) -> actors s1 a = Some x1 -> In a b1 -> a_tx x1 = 0 ->
+  prov_run s1 b1 tr2 = Some (s2, b2) -> handles s2 h = Some (a, k) -> step s2 (EvUpg h ok) = Acc s3 ->
+  ok = false.
+Check Props.C05.C05_discipline_refines_the_model : forall tr, chk_C05 tr = true -> accepts tr = true.
